@@ -8,20 +8,24 @@ TB = ("Coq 8.16.1 kernel; theorems are about hand-written Gallina models (coq/Mo
       "(ExtrOcamlBasic only) against the real binary and cfg(imdl_verif) hooks; no axioms (Print Assumptions allowlist = "
       "'Closed under the global context'); Section hypotheses standing for external code are listed in DESIGN.md section 8.")
 
-CLAIMED = {
-    "C15": dict(
-        text="Machine-checked proof over the picker model for all 2^64 sizes (float path = ideal arithmetic under an explicit libm "
-             "hypothesis, power of two, bounds, monotone, closed form, published table regenerated from the book, constants regenerated "
-             "from the source), tied to the code by the translator and a hook/binary correspondence run. Right level: the property "
-             "quantifies over 2^64 inputs and a float edge region that sampling cannot settle.",
-        ref="DESIGN.md section 5, C15", technique="Coq proof over a Gallina model + translator-generated tables + model/implementation correspondence run",
-        note=TB + " Assumed: libm log2 accuracy as stated by cl_ok."),
-}
+def claimed():
+    """each tools/props/cXX.py that is ready to be claimed exposes MANIFEST = dict(text=, ref=, technique=, note=)"""
+    import importlib
+    sys.path.insert(0, os.path.join(VERIF, "tools"))
+    out = {}
+    for fn in sorted(os.listdir(os.path.join(VERIF, "tools", "props"))):
+        if fn.startswith("c") and fn.endswith(".py"):
+            mod = importlib.import_module("props." + fn[:-3])
+            if getattr(mod, "MANIFEST", None):
+                out[fn[:-3].upper()] = mod.MANIFEST
+    return out
+
 
 PENDING_REASON = "check not built yet in this revision (planned as a Coq model + correspondence check, DESIGN.md section 5); not claimed until it runs"
 
 
 def main():
+    CLAIMED = claimed()
     props = [json.loads(l) for l in open(os.path.join(VERIF, "properties.jsonl"))]
     hooks_commits = subprocess.run(["git", "-C", "/repo", "log", "--format=%H %s"], stdout=subprocess.PIPE).stdout.decode().splitlines()
     hooks_commits = [l.split()[0] for l in hooks_commits if l.split(" ", 1)[1].startswith("verif hooks")]
